@@ -10,6 +10,7 @@ import (
 	"io"
 	"net"
 	"net/http"
+	"net/url"
 	"strings"
 	"sync"
 	"sync/atomic"
@@ -40,6 +41,47 @@ type Case struct {
 	// request (as context-propagating middleware does), so the response the
 	// transport returns points at the clone.
 	CloneRT bool `json:"clone_rt,omitempty"`
+	// MultilineErrors: modifier errors carry a newline, quotes and a backslash
+	// (as an aggregated MultiError does); they must still travel in a Warning header.
+	MultilineErrors bool `json:"multiline_errors,omitempty"`
+	// Downstream: blind CONNECTs go through a downstream proxy; "credentials"
+	// configures it with user:password in its URL.
+	Downstream string `json:"downstream,omitempty"`
+}
+
+// connectProxy is a minimal downstream CONNECT proxy: 200, then splice.
+func connectProxy(l net.Listener, route func(host string) string) {
+	for {
+		c, err := l.Accept()
+		if err != nil {
+			return
+		}
+		go func() {
+			defer c.Close()
+			br := bufio.NewReader(c)
+			req, err := http.ReadRequest(br)
+			if err != nil || req.Method != "CONNECT" {
+				return
+			}
+			to := route(req.Host)
+			if to == "" {
+				c.Write([]byte("HTTP/1.1 502 Bad Gateway\r\nContent-Length: 0\r\n\r\n"))
+				return
+			}
+			t, err := net.DialTimeout("tcp", to, 5*time.Second)
+			if err != nil {
+				c.Write([]byte("HTTP/1.1 502 Bad Gateway\r\nContent-Length: 0\r\n\r\n"))
+				return
+			}
+			defer t.Close()
+			c.Write([]byte("HTTP/1.1 200 Connection established\r\n\r\n"))
+			done := make(chan struct{}, 2)
+			go func() { io.Copy(t, br); t.(*net.TCPConn).CloseWrite(); done <- struct{}{} }()
+			go func() { io.Copy(c, t); c.(*net.TCPConn).CloseWrite(); done <- struct{}{} }()
+			<-done
+			<-done
+		}()
+	}
 }
 
 type cloningRT struct{ next http.RoundTripper }
@@ -77,6 +119,14 @@ type probe struct {
 	calls []call
 	reqOf map[string]*http.Request
 	mitm  map[string]bool // ids whose hijack must stay silent (TLS inside)
+	multi bool
+}
+
+func (p *probe) errText(kind, id string) error {
+	if p.multi {
+		return fmt.Errorf("verif-%s-%s\nsecond \"line\" with a \\ backslash\tand a tab", kind, id)
+	}
+	return fmt.Errorf("verif-%s-%s", kind, id)
 }
 
 func (p *probe) record(c call) {
@@ -118,7 +168,7 @@ func (p *probe) ModifyRequest(req *http.Request) error {
 	case bMutate:
 		req.Header.Set("X-Mutated-Req", id)
 	case bReqErr:
-		err = fmt.Errorf("verif-reqerr-%s", id)
+		err = p.errText("reqerr", id)
 	case bSkip:
 		if ctx != nil {
 			ctx.SkipRoundTrip()
@@ -160,7 +210,7 @@ func (p *probe) ModifyResponse(res *http.Response) error {
 	case bMutate:
 		res.Header.Set("X-Mutated-Res", id)
 	case bResErr:
-		err = fmt.Errorf("verif-reserr-%s", id)
+		err = p.errText("reserr", id)
 	case bHijRes:
 		if ctx != nil {
 			marker := "HIJACKED-RES-" + id + "\n"
@@ -282,11 +332,13 @@ func runOnce(c Case, T time.Duration) (v kit.Verdict) {
 			return echoL.Addr().String()
 		case strings.HasPrefix(addr, "unreachable.test"), strings.HasPrefix(addr, "down.test"):
 			return ""
+		case strings.HasPrefix(addr, netkit.LoopAddr()+":"):
+			return addr // the downstream proxy's own address
 		}
 		return plainOrigin.Addr
 	}}
 
-	pb := &probe{clock: &clock, reqOf: map[string]*http.Request{}, mitm: map[string]bool{}}
+	pb := &probe{clock: &clock, reqOf: map[string]*http.Request{}, mitm: map[string]bool{}, multi: c.MultilineErrors}
 	needMITM := false
 	for _, cn := range c.Conns {
 		if cn.Mode == "mitm" {
@@ -299,6 +351,24 @@ func runOnce(c Case, T time.Duration) (v kit.Verdict) {
 	p.SetDial(dialer.Dial)
 	if c.CloneRT {
 		p.SetRoundTripper(cloningRT{p.GetRoundTripper()})
+	}
+	if c.Downstream != "" {
+		dl, err := netkit.Listen()
+		if err != nil {
+			return kit.Failf("C02/harness/listen", "%v", err)
+		}
+		defer dl.Close()
+		go connectProxy(dl, func(host string) string {
+			if strings.HasPrefix(host, "echo.test") {
+				return echoL.Addr().String()
+			}
+			return ""
+		})
+		u := &url.URL{Scheme: "http", Host: dl.Addr().String()}
+		if c.Downstream == "credentials" {
+			u.User = url.UserPassword("verif", "secret")
+		}
+		p.SetDownstreamProxy(u)
 	}
 	p.SetRequestModifier(pb)
 	p.SetResponseModifier(pb)
@@ -732,15 +802,20 @@ func genCase(t *rapid.T) Case {
 	n := rapid.IntRange(1, 3).Draw(t, "conns")
 	var c Case
 	c.CloneRT = rapid.IntRange(0, 3).Draw(t, "clone_rt") == 0
+	c.MultilineErrors = rapid.Bool().Draw(t, "multiline_errors")
+	if family == "blind" && rapid.Bool().Draw(t, "via_downstream") {
+		c.Downstream = rapid.SampledFrom([]string{"plain", "credentials"}).Draw(t, "downstream")
+	}
 	for i := 0; i < n; i++ {
 		mode := family
-		if family != "plain" && rapid.IntRange(0, 2).Draw(t, "plain_too") == 0 {
+		if family != "plain" && c.Downstream == "" && rapid.IntRange(0, 2).Draw(t, "plain_too") == 0 {
 			mode = "plain"
 		}
 		cn := Conn{Mode: mode}
 		if mode != "plain" {
 			cn.ConnectBeh = rapid.SampledFrom([]string{bPass, bPass, bPass, bMutate, bReqErr, bResErr, bHijReq, bHijRes}).Draw(t, "connect_beh")
-			if mode == "blind" {
+			if mode == "blind" && c.Downstream == "" {
+				// (through a downstream proxy the refusal is that proxy's answer, not martian's)
 				cn.Unreachable = rapid.IntRange(0, 4).Draw(t, "unreachable") == 0
 			}
 		}
@@ -803,6 +878,12 @@ func classes(c Case) []string {
 	if c.CloneRT {
 		set["cloning-roundtripper"] = true
 	}
+	if c.Downstream != "" {
+		set["downstream-"+c.Downstream] = true
+	}
+	if c.MultilineErrors {
+		set["multiline-errors"] = true
+	}
 	var out []string
 	for k := range set {
 		out = append(out, k)
@@ -820,7 +901,7 @@ var propMods = &kit.Prop[Case]{
 func TestModifiers(t *testing.T) {
 	kit.Assume("skip-round-trip is not applied to a blind CONNECT (no defined outcome); hijackers inside a MITM tunnel write nothing (what they are handed is C05's clause)")
 	kit.Assume("connections of one case are driven one after another")
-	propMods.Check(t, kit.N(300, 800))
+	propMods.Check(t, kit.N(800, 1000))
 }
 
 func TestReplay(t *testing.T) { kit.Replay(t, propMods) }
